@@ -46,8 +46,8 @@ pub fn entries() -> Vec<Entry> {
         Entry { id: "C06", rule: "programs with soft/weak/phantom reference objects registered at creation, finalizer registrations, late/never pops; oracle = stage-ordered reachability model (safety at every GC, completeness after forced exhaustive full-heap GCs); non-trivial = (>=1 reference cleared and >=1 retained) or >=1 finalizable object popped", run: c06 },
         Entry { id: "C07", rule: "programs ending episodes with forced exhaustive GCs on every plan (vo_bit build); oracle = enumerate_objects multiset == survivors, is_mmtk_object Some for survivors and None for reclaimed/moved-away addresses; non-trivial = >=1 reclaimed address checked and survivors in >=2 spaces", run: c07 },
         Entry { id: "C08", rule: "probe points after allocation and after GCs: word-aligned addresses around/inside objects for is_mmtk_object, interior pointers x max_search_bytes {1,2,7,8,9,d,d+1,d+2,4096,1MiB} for find_object_from_internal_pointer, addresses outside the heap; oracle = shadow interval map; non-trivial probe = unaligned pointer, pointer >= 4096 bytes into the object, or limit <= distance", run: c08 },
-        Entry { id: "C09", rule: "allocate-drop-GC cycles (10..40 cycles quick) with generated size mixes incl. LOS/non-moving/weak/finalizers for every collecting plan; oracle = no out_of_memory, used_bytes after cycle k <= max(first three) + one chunk, free+used <= total; non-trivial = >=10 cycles", run: c09 },
-        Entry { id: "C10", rule: "heaps filled with reachable data, then alloc_with_options over all 8 flag combinations x size classes (small..usize::MAX) x semantics; oracle over callback counters: no OOM call when disallowed, no block_for_gc when not at safepoint, OOM only after a GC (or obviously too large), null on OOM; non-trivial = >=1 call returned null or called out_of_memory", run: c10 },
+        Entry { id: "C09", rule: "allocate-drop-GC cycles (10..40 cycles quick) with generated size mixes incl. LOS/non-moving/weak/finalizers and, every third cycle, non-safepoint allocation attempts that are turned away because the heap is full, for every collecting plan; oracle = no out_of_memory, used_bytes after cycle k <= max(first three) + one chunk, free+used <= total; non-trivial = >=10 cycles", run: c09 },
+        Entry { id: "C10", rule: "heaps filled with reachable data, then alloc_with_options over all 8 flag combinations x size classes (small..usize::MAX) x semantics, a quarter of the cases ending with a burst of reachable half-heap over-committing requests that may not wait for a GC until the space's address range is exhausted; oracle over callback counters: no OOM call when disallowed, no block_for_gc when not at safepoint, OOM only after a GC (or obviously too large), null on OOM; non-trivial = >=1 call returned null or called out_of_memory", run: c10 },
         Entry { id: "C11", rule: "generated programs x 11 plans x 1-4 workers x 1-3 mutators with the scheduler event log on; per collection: stop_all_mutators exactly once and before the first stop-the-world bucket opens, no stop-the-world packet and no scan_object/copy callback outside the stop..resume bracket (copy only, for the concurrent plan), every bound mutator scanned exactly once per root-scanning round, resume_mutators exactly once with no packet executing and none pending; racing forced GC requests from 2-4 mutator threads at once: every call returns true and only after a collection has ended since it was made; non-trivial = >=2 mutators bound and >=2 workers and >=2 collections", run: c11 },
         Entry { id: "C14", rule: "generated programs x 10 collecting plans x 1-4 workers: user GC requests (also back to back), allocation-triggered GCs, prepare_to_fork requested from inside a running GC, fork cycles; oracles: every accepted request is followed by a completed collection, a watchdog over the mirrored scheduler state reports 'all N workers parked, goal current or requested, no scheduler event for 8 s', after the program all workers are parked with no goal, parked counts of monitor and event log agree; non-trivial = >=2 collections and (>=1 fork request made during a GC or >=2 collections requested back to back)", run: c14 },
         Entry { id: "C15", rule: "generated programs x 11 plans x 1-4 workers with the scheduler event log on; every stop-the-world bucket other than Prepare is opened by the last parked worker (all N parked in the log, no packet executing) with every earlier enabled bucket open and empty (snapshot taken inside WorkBucket::update), in stage order; adds and starts of packets match by type, nothing pending and every stop-the-world bucket closed and empty at resume_mutators; in half of the cases the binding adds packets of its own to later stages (Closure, Release, Final) during each pause: all executed before the mutators resume; non-trivial = >=3 workers and >=1 bucket opened after packets had been added to it by packets of earlier buckets, or >=2 packets executing in parallel", run: c15 },
@@ -188,6 +188,9 @@ fn c10(c: &mut Check) {
         let mut l = labels_common(v);
         if cv(v, "oom_obvious") > 0 {
             l.push("obvious_oom");
+        }
+        if cv(v, "overcommit_unbounded_attempt") > 0 {
+            l.push("address_range_exhaustion_burst");
         }
         (nt, l)
     });
